@@ -88,6 +88,61 @@ claim(
     "Quadratic space: quick replays a rotating window of complete histories after each reset point (all reset points are covered); thorough widens the window; bounded to <= 4 operations.",
 )
 
+claim(
+    "C03",
+    "exhaustive small-scope enumeration: every tiny non-flexible instance solved by the real ORToolsSolver against an optimum from exhaustive history search; the public CP-SAT model proto evaluated on ALL start vectors of its domains vs brute-force feasibility; EVERY optimal assignment pushed through the real solve() via a stub CpSolver; all ordered pairs/triples of solve calls on one object",
+    "Decides feasibility, true optimality, model == problem, reconstruction under every admissible solver answer and history independence on the complete families of instances with <= 4 operations (durations 0..2, 2 machines).",
+    "CP-SAT's own search is trusted only as cross-checked; benchmark instances (thorough) are a fixed list; CP-SAT is pinned to 1 worker / fixed seed by the harness.",
+)
+claim(
+    "C04",
+    "stateless exhaustive DFS over every filtered dispatch tree evaluating every rule / score rule / tie-breaker pair in every state; E2 enumeration of every answer of the random source and of the clock; solver runs to completion for every rule x chooser x filter",
+    "Every state of every filtered tree of the small-scope families: selection available and best under the documented key; direct == observer-based MWKR in every state; solver terminates, complete, feasible for every random answer; elapsed_time arithmetic for every enumerated clock increment.",
+    "random_score explored with deviation bound 1; candidate set is the implementation's available_operations() (C07 decides its correctness).",
+)
+claim(
+    "C14",
+    "complete small-scope enumeration of instances (views, round trips through dict/JSON/Taillard text), of all complete dispatch histories (schedule round trips) and of ALL per-machine permutation tuples (accepted <=> acyclic, under an alarm); content fingerprints around every component for immutability",
+    "Views vs definitions and round trips on every instance of the families; from_job_sequences/from_dict on every dispatcher-built schedule; every permutation tuple of every non-flexible instance with <= 4 operations classified against an own acyclicity check.",
+    "Bounded to the listed families; Taillard files are written by the harness.",
+)
+claim(
+    "C15",
+    "complete enumeration of all ordered pairs (and triples of sub-universes) of bounded universes of real operations / scheduled operations / schedules / instances, each element built twice independently",
+    "Equivalence laws, content-equality in both directions, hash consistency and foreign-type comparisons over every ordered pair of universes of several hundred to thousands of objects.",
+    "Bounded universes; pairs the statement does not classify are only checked for symmetry / hash consistency.",
+)
+claim(
+    "C16",
+    "complete small-scope enumeration of instances x 4 builders against reference node/edge sets; all complete histories x all {0,1}^n delay vectors for the solved graph with an own longest-path DP",
+    "Exact typed node and edge sets on every instance of the families; acyclicity and longest path == makespan for every dispatcher-built schedule, <= makespan for every delayed variant.",
+    "Bounded to the listed families.",
+)
+claim(
+    "C17",
+    "stateless exhaustive DFS over all dispatch histories x 4 builders x 4 option pairs x 2 filters with the real ResidualGraphUpdater, first and second episode; removal invariants vs reference completed/scheduled sets",
+    "Every prefix of every history of the positive-duration families under every configuration: completed subset removed subset scheduled, machine/job removal only when all scheduled, monotone, mask == graph, no dangling edge, complete => all removed.",
+    "Bounded to the listed positive-duration families.",
+)
+claim(
+    "C18",
+    "bounded exhaustive action sequences (two episodes) on real SingleJobShopGraphEnv objects over instances x configurations; E2: every instance the generator can emit as an episode of the real MultiJobShopGraphEnv for several constructor-time draws",
+    "Observation-space membership (gymnasium + own check), mask/edges == graph, padding placement, done/truncated, every legal action in the action space, configuration preserved across every reset, instances within generator ranges.",
+    "Bounded families / generator ranges; one known finding (spaces sized from one sampled instance) is listed in known_findings.json and reported as KNOWN-FINDING.",
+)
+claim(
+    "C19",
+    "E2: exhaustive enumeration of EVERY answer sequence of the random module for each setting of a generator-parameter grid (every instance the generator can emit), shape predicates per outcome + coverage of all machines over the outcome set; seed/iteration clauses over a finite seed list",
+    "All outcomes of GeneralInstanceGenerator.generate() for 400+ parameter settings with small ranges; same-seed equality, unique names and iteration_limit on a seed x setting grid.",
+    "Small ranges (<= 3 jobs x 3 machines); seed clause uses the real RNG on a finite list.",
+)
+claim(
+    "C20",
+    "exhaustive small-scope enumeration of schedules through the real plot_gantt_chart (artist inspection); all histories through the real frame-replay loop and GanttChartCreator; EVERY n in 1..N through the real file-naming / directory-listing / sorted-loading pipeline with stub figure and recording codec; real GIF encode/decode for small n",
+    "Bars/legend/axis vs schedule for every distinct schedule of the family; k-th frame == first k dispatches for every history; frame order for every history length up to N (130 quick, 1100 thorough), crossing 100 and 1000.",
+    "Frame order decided for n <= N only; pixels not compared except the gray level encoding the frame id.",
+)
+
 PENDING = {
     f"C{n:02d}": "check not built yet in this revision (planned: bounded exhaustive exploration, see DESIGN.md)"
     for n in range(1, 21)
